@@ -467,12 +467,22 @@ func genPipe(rt *rapid.T, tier string, op pipeGenOpts) *PipeCase {
 			refm = related(base, r, 0, 2)
 		}
 	case 3:
-		// a reference much less resolved than the other trees: every inner branch contracted with probability 1/2
+		// a reference much less resolved than the other trees: every inner branch contracted with probability 1/2, or all but one or two
 		refm = base.Clone(nil)
-		for _, x := range innerNodes(refm) {
-			if r.Intn(2) == 0 {
-				Contract(x)
+		in := innerNodes(refm)
+		keep := -1
+		if r.Intn(2) == 0 && len(in) > 2 {
+			keep = 1 + r.Intn(2)
+		}
+		for len(in) > 0 {
+			i := r.Intn(len(in))
+			if keep >= 0 && len(in) <= keep {
+				break
 			}
+			if keep >= 0 || r.Intn(2) == 0 {
+				Contract(in[i])
+			}
+			in = append(in[:i], in[i+1:]...)
 		}
 		Unroot(refm)
 	}
